@@ -19,6 +19,7 @@ import ast
 from ..astutil import call_name, calls, dotted, names_in, param_names, stmts, walk_local
 from ..cfg import CFG
 from ..core import AnalysisError, Mutant
+from ..exprnorm import canon, check_spec, show, summarize
 
 EXPLANATION = (
     "Change-mask term extraction, wrapper forwarding shape, call-graph cycle detection over "
@@ -65,74 +66,63 @@ def or_terms(e):
     return [e]
 
 
+def mode_ignored_somewhere(f, p):
+    """For a summarisable function: the list of conditions (truth assignments of the other tests) under which the result
+    is identical for p=True and p=False; [] if none; None if the function cannot be summarised."""
+    import itertools
+    try:
+        sm = summarize(f)
+    except Exception:
+        return None
+    if sm.result is None or any(isinstance(n, ast.Name) and n.id.endswith("'") for n in ast.walk(sm.result)):
+        return None
+    c = canon(sm.result)
+    tests = []
+
+    def collect(x):
+        if isinstance(x, tuple):
+            if len(x) == 4 and x[0] == "if" and x[1] != p and x[1] not in tests:
+                tests.append(x[1])
+            for y in x:
+                collect(y)
+    collect(c)
+    if len(tests) > 5:
+        return None
+
+    def fix(x, assign):
+        if not isinstance(x, tuple):
+            return x
+        if len(x) == 4 and x[0] == "if" and x[1] in assign:
+            return fix(x[2] if assign[x[1]] else x[3], assign)
+        return tuple(fix(y, assign) for y in x)
+
+    bad = []
+    for vals in itertools.product([True, False], repeat=len(tests)):
+        a = dict(zip(tests, vals))
+        t_, f_ = fix(c, {**a, p: True}), fix(c, {**a, p: False})
+        if t_ == f_:
+            bad.append({(show(k, 60)): v for k, v in a.items()})
+    return bad
+
+
 def run(ctx):
     res, cha, seg, mol = ctx.src(RES), ctx.src(CHA), ctx.src(SEG), ctx.src(MOL)
 
-    # ---------------- R1 change masks ---------------------------------------
-    f = res.func("get_residue_starts")
-    terms = change_terms(f)
-    mask = None
-    for st in stmts(f):
-        if isinstance(st, ast.Assign) and isinstance(st.value, ast.BinOp) and isinstance(st.value.op, ast.BitOr):
-            mask = st
-    used = None
-    where_line = f.lineno
-    if mask is not None:
-        used = [terms.get(t.id) if isinstance(t, ast.Name) else None for t in or_terms(mask.value)]
-        where_line = mask.lineno
-    else:
-        # loop idiom:  for category in ("a", "b"): annot = array.get_annotation(category); mask |= annot[1:] != annot[:-1]
-        for st in stmts(f):
-            if isinstance(st, ast.For) and isinstance(st.iter, (ast.Tuple, ast.List)) \
-                    and all(isinstance(e, ast.Constant) and isinstance(e.value, str) for e in st.iter.elts):
-                acc = [b for b in st.body if isinstance(b, ast.AugAssign) and isinstance(b.op, ast.BitOr)
-                       and isinstance(b.value, ast.Compare) and isinstance(b.value.ops[0], ast.NotEq)]
-                if acc:
-                    used = [e.value for e in st.iter.elts]
-                    where_line = st.lineno
-    if used is None:
-        raise AnalysisError("anchor vanished: residue change mask (neither an OR of change arrays nor a category loop)")
-    ctx.ob("R1.residue-change-mask", RES, "get_residue_starts", f"OR of changes in {sorted(x for x in used if x)}",
-           None not in used and sorted(used) == ["chain_id", "ins_code", "res_id", "res_name"],
-           "a residue starts exactly where chain_id, res_id, ins_code or res_name differ between "
-           f"consecutive atoms; the mask combines {used}", where_line)
-    f2 = cha.func("get_chain_starts")
-    terms2 = change_terms(f2)
-    dec = {}
-    diffs = {}
-    for st in stmts(f2):
-        if isinstance(st, ast.Assign) and isinstance(st.targets[0], ast.Name):
-            v = st.value
-            if isinstance(v, ast.Call) and call_name(v) == "np.diff" and v.args:
-                diffs[st.targets[0].id] = (dotted(v.args[0]) or "").split(".")[-1]
-            if isinstance(v, ast.Compare) and isinstance(v.left, ast.Name) and v.left.id in diffs \
-                    and isinstance(v.ops[0], ast.Lt) and isinstance(v.comparators[0], ast.Constant) \
-                    and v.comparators[0].value == 0:
-                dec[st.targets[0].id] = diffs[v.left.id]
-    where = [c for c in calls(f2) if call_name(c) == "np.where"]
-    ctx.need(where, "np.where in get_chain_starts")
-    parts = or_terms(where[0].args[0])
-    kinds = sorted(("change:" + terms2[p.id]) if isinstance(p, ast.Name) and p.id in terms2
-                   else ("decrease:" + dec[p.id]) if isinstance(p, ast.Name) and p.id in dec else "?"
-                   for p in parts)
-    ctx.ob("R1.chain-change-mask", CHA, "get_chain_starts", str(kinds),
-           kinds == ["change:chain_id", "decrease:res_id"],
-           "a chain starts exactly where the chain id changes or the residue id decreases", where[0].lineno)
-    for rel, fn, src in ((RES, "get_residue_starts", res), (CHA, "get_chain_starts", cha)):
-        fx = src.func(fn)
-        w = [st for st in stmts(fx) if isinstance(st, ast.Assign) and isinstance(st.value, ast.BinOp)
-             and isinstance(st.value.op, ast.Add) and "np.where" in ast.unparse(st.value)]
-        ok = bool(w) and isinstance(w[0].value.right, ast.Constant) and w[0].value.right.value == 1 \
-            and ast.unparse(w[0].value.left).endswith("[0]")
-        ctx.ob("R1.start-is-index-after-change", rel, fn, ast.unparse(w[0]) if w else "-", ok,
-               "the change between atoms i and i+1 starts a segment at i+1", fx.lineno)
-        rets = [r for r in walk_local(fx) if isinstance(r, ast.Return) and isinstance(r.value, ast.Call)
-                and call_name(r.value) == "np.concatenate"]
-        shapes = sorted(ast.unparse(r.value.args[0]) for r in rets)
-        var = w[0].targets[0].id if w else "?"
-        ctx.ob("R1.zero-prepended", rel, fn, str(shapes),
-               shapes == sorted([f"([0], {var})", f"([0], {var}, [array.array_length()])"]),
-               "the first segment starts at 0; the exclusive stop is the array length", fx.lineno)
+    # ---------------- R1 start definitions (whole function, composed symbolically) ----------------
+    # robust to temporaries, renames, operand order, early-return/else forms, table loops (see exprnorm/normalize)
+    def starts_spec(mask):
+        st = f"np.where({mask})[0] + 1"
+        return (f"(np.array([0], dtype=int) if add_exclusive_stop else np.array([], dtype=int)) if array.array_length() == 0 else "
+                f"(np.concatenate(([0], {st}, [array.array_length()])) if add_exclusive_stop else np.concatenate(([0], {st})))")
+
+    res_mask = " | ".join(f"(array.{a}[1:] != array.{a}[:-1])" for a in ("chain_id", "res_id", "ins_code", "res_name"))
+    check_spec(ctx, "R1.residue-starts-definition", RES, "get_residue_starts", starts_spec(res_mask),
+               "a residue starts at 0 and at i+1 wherever chain_id, res_id, ins_code or res_name differ between atoms i and i+1; "
+               "with add_exclusive_stop the array length is appended (also for an empty array: [0])")
+    cha_mask = "(np.diff(array.res_id) < 0) | (array.chain_id[1:] != array.chain_id[:-1])"
+    check_spec(ctx, "R1.chain-starts-definition", CHA, "get_chain_starts", starts_spec(cha_mask),
+               "a chain starts at 0 and at i+1 wherever the chain id changes or the residue id decreases between atoms i and i+1; "
+               "with add_exclusive_stop the array length is appended (also for an empty array: [0])")
 
     # ---------------- R2 wrappers -------------------------------------------
     n_wr = 0
@@ -189,6 +179,13 @@ def run(ctx):
                 tests = {n.id for n in g.nodes if n.kind == "test" and p in names_in(n.ast.test)}
                 if not tests:
                     continue
+                ignored = mode_ignored_somewhere(f, p)
+                if ignored is not None:
+                    n_mode += 1
+                    ctx.ob("R4.mode-honoured", rel, qual, f"result depends on `{p}` under every condition", not ignored,
+                           f"under the condition(s) {ignored} the result of {qual} is the same for both values of `{p}`: the mode is "
+                           "ignored there (e.g. no exclusive stop for an empty array)", f.lineno)
+                    continue
                 cd = g.control_deps()
                 for n in g.nodes:
                     if n.ast is None or not isinstance(n.ast, ast.Return):
@@ -199,7 +196,7 @@ def run(ctx):
                            f"this return is taken regardless of `{p}`, while other returns of {qual} depend "
                            f"on it: the result has the wrong shape for one value of `{p}` (e.g. no "
                            "exclusive stop for an empty array)", n.line)
-    ctx.floor("mode-returns", n_mode, 6)
+    ctx.floor("mode-returns", n_mode, 2)
 
     # ---------------- R5 segment lookup --------------------------------------
     for name in ("get_segment_masks", "get_segment_starts_for", "get_segment_positions"):
@@ -305,8 +302,8 @@ def run(ctx):
 
 MUTANTS = [
     Mutant("molecules-ignore-coordination", MOL, "    molecule_indices = []\n    visited_mask = np.zeros(bonds.get_atom_count(), dtype=bool)", "    bonds = BondList(bonds.get_atom_count(), bonds.as_array()[bonds.as_array()[:, 2] != 7])\n    molecule_indices = []\n    visited_mask = np.zeros(bonds.get_atom_count(), dtype=bool)", "R3.whole-bond-graph"),
-    Mutant("drop-ins-code", RES, "chain_id_changes | res_id_changes | ins_code_changes | res_name_changes", "chain_id_changes | res_id_changes | res_name_changes", "R1.residue-change-mask"),
-    Mutant("chain-increment", CHA, "res_id_decrement = diff < 0", "res_id_decrement = diff > 0", "R1.chain-change-mask"),
+    Mutant("drop-ins-code", RES, "chain_id_changes | res_id_changes | ins_code_changes | res_name_changes", "chain_id_changes | res_id_changes | res_name_changes", "R1.residue-starts-definition"),
+    Mutant("chain-increment", CHA, "res_id_decrement = diff < 0", "res_id_decrement = diff > 0", "R1.chain-starts-definition"),
     Mutant("wrapper-no-stop", CHA, "def get_chain_masks(array, indices):", "def get_chain_masks(array, indices, _x=None):", "R2.wrapper-params") if False else
     Mutant("wrapper-wrong-target", RES, "    return get_segment_positions(starts, indices)", "    return get_segment_starts_for(starts, indices)",
            "R2.wrapper-forwards", "get_residue_positions"),
@@ -319,7 +316,9 @@ MUTANTS = [
     Mutant("searchsorted-left", SEG, 'return np.searchsorted(starts, indices, side="right") - 1', 'return np.searchsorted(starts, indices, side="left") - 1',
            "R5.segment-lookup", "get_segment_positions"),
     Mutant("start-no-plus1", RES, "residue_starts = np.where(residue_change_mask)[0] + 1", "residue_starts = np.where(residue_change_mask)[0]",
-           "R1.start-is-index-after-change"),
+           "R1.residue-starts-definition"),
+    Mutant("chain-stop-dropped", CHA, "        return np.concatenate(([0], chain_starts, [array.array_length()]))", "        return np.concatenate(([0], chain_starts))", "R4.mode-honoured", "get_chain_starts"),
+    Mutant("refactor-chain-starts", CHA, "    diff = np.diff(array.res_id)\n    res_id_decrement = diff < 0\n", "    res_id_decrement = np.diff(array.res_id) < 0\n", "R1.chain-starts-definition", kind="silent"),
     Mutant("repair-recursion", BONDS, "        _find_connected(\n            bond_list, connected_index, is_connected_mask, all_bonds\n        )\n",
            "        pass\n", "R3.no-recursion", kind="repair"),
 ]
